@@ -325,5 +325,29 @@ add_big("fragmented/DINT[300]@500", 300, 500, 6)
 add_big("fragmented/DINT[130]@500-just-over", 130, 500, 4)
 add_big("fragmented/DINT[1100]@4000", 1100, 4000, 4, tier="thorough", timeout=900)
 
+
+# ---- deeper shapes (added in the second pass): nested structure dicts, list of structure dicts
+add("struct/O1-nested-dict", ["O1"], 5, lambda xs: [("O1", {"inner": {"a": xs[0], "b0": xs[1] == 1, "b1": False, "arr": [xs[2], 7], "r": mkfloat(xs[3], 4)}, "s": xs[4], "w": 9}, "O1",
+                                                      [("int", 0, 4, True, xs[0]), ("bit", 4, 0, xs[1] == 1), ("bit", 4, 1, False), ("int", 6, 2, True, xs[2]), ("int", 8, 2, True, 7),
+                                                       ("float", 12, 4, xs[3]), ("int", 16, 1, True, xs[4]), ("int", 18, 2, True, 9)], None)],
+    val_pre=lambda xs: dom(xs[0], 4) and xs[1] in (0, 1) and dom(xs[2], 2) and 0 <= xs[3] < 2**32 and dom(xs[4], 1),
+    mem_pre=lambda m: m[4] < 4 and m[5] == 0 and m[10] == 0 and m[11] == 0 and m[17] == 0, tier="quick", timeout=900,
+    desc="nested structure written from a nested dict: every visible member of OUTER and of the nested UDT1, prior image symbolic with zero padding")
+add("struct/UA{2}-list-of-dicts", ["UA"], 4, lambda xs: [("UA{2}", [{"a": xs[0], "b0": True, "b1": False, "arr": [xs[1], 1], "r": mkfloat(0x3F800000, 4)},
+                                                                    {"a": xs[2], "b0": False, "b1": True, "arr": [2, xs[3]], "r": mkfloat(0, 4)}], "UA",
+                                                          [("int", 0, 4, True, xs[0]), ("bit", 4, 0, True), ("bit", 4, 1, False), ("int", 6, 2, True, xs[1]), ("int", 8, 2, True, 1), ("float", 12, 4, 0x3F800000),
+                                                           ("int", 16, 4, True, xs[2]), ("bit", 20, 0, False), ("bit", 20, 1, True), ("int", 22, 2, True, 2), ("int", 24, 2, True, xs[3]), ("float", 28, 4, 0)], None)],
+    val_pre=lambda xs: dom(xs[0], 4) and dom(xs[1], 2) and dom(xs[2], 4) and dom(xs[3], 2),
+    mem_pre=lambda m: all(m[k] == 0 for k in (4, 5, 10, 11, 20, 21, 26, 27)), tier="quick", timeout=900,
+    desc="array of structures written from a list of dicts")
+for ln in (0, 40, 82):
+    def _mk82(ln):
+        def build(xs):
+            cps = [xs[0]] * ln
+            return [("SS", mkstr(cps), "SS", [("int", 0, 4, True, ln), ("raw", 4, cps + [0] * (84 - ln))], None)]
+        return build
+    add(f"string/SS/len{ln}", ["SS"], 1, _mk82(ln), val_pre=lambda xs: 0 <= xs[0] < 256, tier="quick", timeout=900,
+        desc=f"82-character STRING: {ln} characters (one symbolic code point repeated), LEN, characters and zero padding up to the 88-byte structure")
+
 from harness import bits_common
 bits_common.add_bitarray_obligations(REG, "C02")
